@@ -96,6 +96,23 @@ pub fn check_inert(vt: &mut Vt, seq: &str, per_char: bool) -> Option<String> {
     None
 }
 
+/// "Consumed completely" also means: no effect on any later input.  `vt` has received inert
+/// sequences, `twin` is the same history without them; after a probe both must agree.
+const PROBES: [&str; 8] = ["\u{9b}HX", "\x1b[HX", "\u{9b};mY", "\x1b[;;H\x1b[;mZ", "\u{9b}r\u{9b}BQ", "\x1b[Aq", "w\x1b[b", "\u{9b}?h\u{9b}lK"];
+
+pub fn check_twin(vt: &mut Vt, twin: &mut Vt, probe: &str) -> Option<String> {
+    drop(vt.feed_str(probe));
+    drop(twin.feed_str(probe));
+    let (a, b) = (Snap::of(vt), Snap::of(twin));
+    if let Some(d) = a.diff_all(&b) {
+        return Some(format!("after the probe {:?} the terminal differs from one that never saw the inert sequence(s): {}", esc(probe), d));
+    }
+    if let Some(d) = diff_hidden(&hidden(vt), &hidden(twin)) {
+        return Some(format!("after the probe {:?}: {}", esc(probe), d));
+    }
+    None
+}
+
 fn enumerated() -> Vec<String> {
     let mut v = Vec::new();
     let shapes = ["", "0", "1", "2;3", "65535", ";", "1:2"];
@@ -218,7 +235,13 @@ pub fn work(ctx: &Ctx, rep: &mut Report) {
             let mut vt = h.build();
             drop(vt.feed_str(pre));
             let k = seq_key(&seqs[si], prior_class(&vt));
-            (check_inert(&mut vt, &seqs[si], u % 2 == 1), k)
+            let mut r = check_inert(&mut vt, &seqs[si], u % 2 == 1);
+            if r.is_none() {
+                let mut twin = h.build();
+                drop(twin.feed_str(pre));
+                r = check_twin(&mut vt, &mut twin, PROBES[u % PROBES.len()]);
+            }
+            (r, k)
         });
         match res {
             Guarded::Done((None, k)) => rep.key(k),
@@ -270,6 +293,19 @@ pub fn work(ctx: &Ctx, rep: &mut Report) {
                     return (Some((s.clone(), d)), keys);
                 }
             }
+            // the same history without the inert sequences
+            let mut twin = hh.build();
+            for c in &hh.calls {
+                match c {
+                    Call::FeedStr(s) => drop(twin.feed_str(s)),
+                    Call::Feed(s) => s.chars().for_each(|ch| twin.feed(ch)),
+                    Call::Resize(c, r) => drop(twin.resize(*c, *r)),
+                }
+            }
+            drop(twin.feed_str(""));
+            if let Some(d) = check_twin(&mut vt, &mut twin, PROBES[u % PROBES.len()]) {
+                return (Some((cands.join(""), d)), keys);
+            }
             (None, keys)
         });
         match res {
@@ -312,7 +348,36 @@ pub fn replay(h: &History, rep: &mut Report) {
                     Call::Resize(c, r) => drop(vt.resize(*c, *r)),
                 }
             }
-            check_inert(&mut vt, seq, per_char)
+            let mut r = check_inert(&mut vt, seq, per_char);
+            if r.is_none() {
+                for probe in PROBES {
+                    let mut a = h.build();
+                    let mut b = h.build();
+                    for c in prior {
+                        match c {
+                            Call::FeedStr(s) => {
+                                drop(a.feed_str(s));
+                                drop(b.feed_str(s));
+                            }
+                            Call::Feed(s) => s.chars().for_each(|ch| {
+                                a.feed(ch);
+                                b.feed(ch)
+                            }),
+                            Call::Resize(c, r) => {
+                                drop(a.resize(*c, *r));
+                                drop(b.resize(*c, *r));
+                            }
+                        }
+                    }
+                    drop(a.feed_str(seq));
+                    drop(b.feed_str(""));
+                    r = check_twin(&mut a, &mut b, probe);
+                    if r.is_some() {
+                        break;
+                    }
+                }
+            }
+            r
         });
         if let Guarded::Done(Some(d)) = res {
             rep.violation("C20", format!("inert sequence {:?} changed the terminal: {}", esc(seq), d), h);
